@@ -27,7 +27,7 @@ FLIP to `true` once fixes/C32-settings-merge-keeps-cli-slices.patch is committed
 def implMergeFixed : Bool := true
 
 /-- Which variant of the list parsers of args.go / env.go the tie compares against.
-FLIP to `true` once fixes/C32-settings-separators-only-proxy-list.patch is committed in /repo. -/
+FLIP to `true` once fixes/C32-separators-only-narrow.patch is committed in /repo. -/
 def implKeepUnusable : Bool := false
 
 def unhexL (s : String) : List Char := ((unhex s).getD []).map fun b => Char.ofNat b.toNat
@@ -158,9 +158,16 @@ def judgeCase (_k : Nat) (lines0 : List String) : Verdict := Id.run do
           -- judge: the property on the observation alone
           let differs := !okC || oC != req.peer || oS != showScheme (peerScheme req.tls)
           if differs then nused := nused + 1
-          let allowed := match specTrust, specList with
+          let strictAllowed := match specTrust, specList with
             | some t, some l => Spec.mayDiffer t l req.peer
             | _, _ => ProxyTrust.Spec.mayDiffer cfg req.peer
+          -- entries that are bare addresses may, liberally, admit exactly that host
+          let writtenEntries : List (List Char) := match specList with
+            | some (.configured items) => items
+            | some _ => []
+            | none => entries
+          let trustOn := (specTrust.getD cfg.trust)
+          let allowed := strictAllowed || (trustOn && ProxyTrust.Spec.bareHostAdmits writtenEntries req.peer)
           if differs && !allowed then
             let sg :=
               -- the glue handed the authorizer something else than what was written
